@@ -103,7 +103,7 @@ def out_pair(out, wcol):
     return C.fr(const[0]), C.fr(coef[0])
 
 
-def real_chain(front, name, ops, cmp_, rhs, r_seed):
+def real_chain(front, name, ops, cmp_, rhs, r_seed, flip=False):
     """build the chain on the real API; returns (expr_record | None, final_record)"""
     from rsome import ro, dro
     r = np.random.default_rng(r_seed)
@@ -129,9 +129,9 @@ def real_chain(front, name, ops, cmp_, rhs, r_seed):
     t = c if d == 0 else d * w + c
     try:
         if cmp_ == 'le':
-            con = (e <= t)
+            con = (t >= e) if flip else (e <= t)        # flipped spelling: the variable's / affine expression's operator runs
         elif cmp_ == 'ge':
-            con = (e >= t)
+            con = (t <= e) if flip else (e >= t)
         elif cmp_ == 'eq':
             con = (e == t)
         elif cmp_ in ('min', 'max'):
@@ -173,14 +173,17 @@ def run(ctx):
             rhs = ['0', '0']
         seed = int(r.integers(2 ** 31))
         xt, sign, quad = AT.ATOMS[name][0], AT.ATOMS[name][1], AT.ATOMS[name][2]
-        case = {"front": front, "atom": name, "ops": ops, "cmp": cmp_, "rhs": rhs, "seed": seed}
+        flip = bool(r.random() < 0.4) and cmp_ in ('le', 'ge')
+        if flip:
+            rhs = [rhs[0], '1']                       # the other side must be an rsome expression for its operator to run
+        case = {"front": front, "atom": name, "ops": ops, "cmp": cmp_, "rhs": rhs, "seed": seed, "flipped_spelling": flip}
         try:
-            expr, fin = real_chain(front, name, ops, cmp_, rhs, seed)
+            expr, fin = real_chain(front, name, ops, cmp_, rhs, seed, flip)
         except Exception as ex:
             ctx.count('harness-error:' + type(ex).__name__); continue
         reqs.append({"op": "curv_chain", "quad": quad, "sign": str(sign), "ops": model_ops(ops), "cmp": cmp_, "rhs": rhs})
         codes.append((expr, fin)); cases.append(case)
-        ctx.count('atom:' + name); ctx.count('cmp:' + cmp_); ctx.count('front:' + front)
+        ctx.count('atom:' + name); ctx.count('cmp:' + cmp_ + (':flipped' if flip else '')); ctx.count('front:' + front)
         if any(o[0] == 'scale' for o in ops) and any(o[0] in ('neg', 'rsub') or (o[0] == 'scale' and o[1].startswith('-')) for o in ops):
             ctx.nontriv(case)
     outs = C.lean_run(reqs)
@@ -260,6 +263,15 @@ def run_pw(ctx):
                 L = C.dense(a.linear).reshape(-1)
                 pieces.append([C.fr(float(np.asarray(a.const).reshape(-1)[0])), C.fr(float(L[wcol]) if L.size > wcol else 0.0)])
             code = {"sign": C.fr(float(pw.sign)), "pieces": pieces}
+            # acceptance of the four spellings of an inequality with the piecewise expression
+            t = 2 * w + 1
+            verdicts = {}
+            for sp, f in (('pw<=t', lambda: pw <= t), ('t>=pw', lambda: t >= pw), ('pw>=t', lambda: pw >= t), ('t<=pw', lambda: t <= pw)):
+                try:
+                    f(); verdicts[sp] = 'accept'
+                except Exception as ex:
+                    verdicts[sp] = type(ex).__name__
+            case['verdicts'] = verdicts
         except Exception as ex:
             code = {"raised": type(ex).__name__}
         reqs.append({"op": "pw_chain", "minof": ismin, "pieces": [[C.fr(c), C.fr(d)] for c, d in pcs], "ops": model_ops(ops)})
@@ -272,6 +284,17 @@ def run_pw(ctx):
         # written expression evaluated by NumPy
         if 'raised' in code:
             continue
+        # `<=` needs a convex left side (sign != -1), `>=` a concave one (sign != +1); the sign is the MODEL's
+        msign = Fraction(out['sign']) if 'sign' in out else None
+        for sp, v in (case.get('verdicts') or {}).items():
+            want_accept = (msign != -1) if sp in ('pw<=t', 't>=pw') else (msign != 1)
+            if msign is None:
+                continue
+            ctx.count('pw-accept:' + sp + ':' + v)
+            if (v == 'accept') != want_accept:
+                ctx.disagree('piecewise acceptance', {"spelling": sp, "code": v, "model_sign": str(msign)}, case)
+                if v == 'accept':
+                    ctx.hit('accepted-nonconvex-use', {"spelling": sp, "sign": str(msign)}, case)
         for w0 in (-1.0, 0.5, 2.0):
             base = [c + d * w0 for c, d in case['pieces']]
             written = np_chain(min(base) if case['minof'] else max(base), case['ops'], w0)
